@@ -191,6 +191,12 @@ let runner fuel =
             let toks = List.filter (fun t -> t <> "") toks in
             let t = List.map parse_event toks in
             evs := !evs + List.length t;
+            (* the property itself, on the implementation's observables: the extracted Coq monitor (ClusterMon.v) *)
+            (match c16_monitor t with
+             | Some (idx, code) ->
+               let i = int_of_nat idx in
+               Printf.printf "MONITOR %s %d %d %s\n" name i (int_of_n code) (if i < List.length toks then List.nth toks i else "<end>")
+             | None -> ());
             let (states, ok) = gaccept (delay = "1") f t in
             let k = List.length states in
             if k > !maxset then maxset := k;
